@@ -139,6 +139,11 @@ func vfMaxSegmentID(names []string) uint64 {
 }
 
 // vfCheckCrashImage reopens one image and applies the oracle of C10.
+// vfDamagedMustBeAbsent is set by C16's segment clause: there the "in-flight" documents are those of a
+// segment one of whose files is a strict prefix of what was written (or is missing), and C16 says such a
+// segment contributes nothing - "all or none" (C10's reading for an interrupted flush) is not enough.
+var vfDamagedMustBeAbsent bool
+
 func vfCheckCrashImage(root string, seq int, img vfDirImage, conf *vfStoreConf, durable, inflight map[uint32]*vfStoreDoc, everAdded map[uint32]bool, what string) *vfViolation {
 	dir := filepath.Join(root, fmt.Sprintf("img%d", seq))
 	if err := img.writeTo(dir); err != nil {
@@ -199,10 +204,15 @@ func vfCheckCrashImage(root string, seq int, img vfDirImage, conf *vfStoreConf, 
 	// the interrupted segment is loaded as a whole or not at all: all of its documents or none
 	foundInflight := 0
 	for _, id := range ids {
-		bv, bt, bm, _, _ := vfStoreFind(st, conf, id, inflight[id])
-		if bv || bt || bm {
+		d := inflight[id]
+		bv, bt, bm, _, _ := vfStoreFind(st, conf, id, d)
+		// (vfStoreFind reports "true" for a modality the document does not have: nothing to find there)
+		if d.hasVec(conf) && bv || d.hasText(conf) && bt || d.hasMeta(conf) && bm {
 			foundInflight++
 		}
+	}
+	if vfDamagedMustBeAbsent && foundInflight != 0 {
+		return vfFail("store image [%s] (files %v): the segment with the truncated / empty / missing component file contributes %d of its %d documents to search results", what, names, foundInflight, len(ids))
 	}
 	if foundInflight != 0 && foundInflight != len(ids) && !vfInflightSpansSegments {
 		return vfFail("crash image [%s] (files %v): %d of the %d documents of the interrupted flush are found — a damaged segment contributed part of its content", what, names, foundInflight, len(ids))
